@@ -391,7 +391,7 @@ def case_strategy(draw):
     if draw(st.integers(0, 7)) == 0:
         return draw(registered_custom_case())
     ver = draw(st.sampled_from(["2.0", "2.1"]))
-    opts = {"ts_max_digits": 6, "selectors": "any", "max_optional": 6}
+    opts = {"ts_max_digits": 6, "selectors": "any", "max_optional": 6, "toplevel_ext": True}
     shape = draw(st.sampled_from(["random", "random", "minimal", "maximal"]))
     if shape != "random":
         opts[shape] = True
